@@ -62,7 +62,10 @@ def run_case(case):
     upem, asc, desc, res_px = cfg["upem"], cfg["ascender"], cfg["descender"], cfg["bitmap_resolution"]
     em = asc - desc
     pngs = [c04.make_png(sz, c04.colour_of(i), i) for i, sz in enumerate(sizes)]
-    sources = [{"svg": None, "codepoints": [0xE000 + i] if i % 3 else [0x1F600 + i, 0x200D, 0x1F3FB], "name": None} for i in range(len(sizes))]
+    # one case in three has single-codepoint sources only: no blank glyphs, so a coloured .notdef (gid 0) is separated
+    # from the first colour glyph (gid 2) by exactly one glyph (.space)
+    all_single = case["i"] % 3 == 0
+    sources = [{"svg": None, "codepoints": [0xE000 + i] if (i % 3 or all_single) else [0x1F600 + i, 0x200D, 0x1F3FB], "name": None} for i in range(len(sizes))]
     if notdef:
         pos = case["i"] % (len(sources) + 1)
         sources.insert(pos, {"svg": None, "codepoints": [], "glyph_name": ".notdef", "name": "notdef.svg"})
@@ -76,6 +79,9 @@ def run_case(case):
     try:
         built = inproc.build(sources, cfg, pngs=pngs)
     except Exception as e:
+        if isinstance(e, AssertionError) and "consecutive" in str(e):
+            res["violations"].append({"what": f"build raised AssertionError: {e}", "config": cfg, "sizes": sizes, "coloured_notdef": notdef})
+            return res
         c["build_refused"] = 1
         res["tags"].append("refused")
         res["tags"].append("refused:" + type(e).__name__ + ":" + str(e)[:50].split(":")[0])
@@ -143,9 +149,11 @@ def run_case(case):
         ideal_top, ideal_bottom, ideal_right = asc * s, desc * s, adv * s
         # 2 px where the ideal offset lies outside the 8-bit range of the format and had to be nudged
         tol_v = 2.0 if (fmt == "cbdt" and not (-128 <= round(ideal_top) <= 127)) else 1.0
-        # the strike's integer ppem is itself a rounding of upem*h/em: a quantity of V px carries up to V*0.5/ppem of it
-        slack = lambda v: 0.5 * abs(v) / ppem
-        ev = max(abs(top - ideal_top) - slack(ideal_top), abs(bottom - ideal_bottom) - slack(ideal_bottom))
+        # the strike's integer ppem is itself a rounding of upem*h/em, so the em box at that ppem is not exactly bh pixels
+        # tall: that mismatch (< 0.5*em/upem px) cannot be placed away and may sit on either edge
+        mismatch = abs(bh - (ideal_top - ideal_bottom))
+        slack = lambda v: 0.5 * abs(v) / ppem  # the same effect for horizontal quantities of v px
+        ev = max(abs(top - ideal_top), abs(bottom - ideal_bottom)) - mismatch
         res["maxes"]["max_vertical_error_px"] = max(res["maxes"].get("max_vertical_error_px", 0), ev)
         if ev > tol_v + 1e-6:
             res["violations"].append(dict(ctx, what=f"bitmap box is vertically off the em box: top {top} vs {ideal_top:.2f}, bottom {bottom} vs {ideal_bottom:.2f} (tolerance {tol_v} px)", ppem=ppem))
